@@ -8,7 +8,7 @@ from ..core.report import AnalysisError
 from ..frontend.pyfront import Repo
 
 LEVEL = 'other'
-TECHNIQUE = 'abstract interpretation of the sensitivity kernels and the radial-heating coefficient; comparison with the published kernel (Tobie et al. 2005 eq. 33) and with the global-rate coefficient by polynomial identity testing; exactness conditions of the finite-difference stencil; the energy theorem in differential form (d/dr of the energy flux along the repository\'s own ODE classes == Im mu * sensitivity_to_shear + Im K * sensitivity_to_bulk) and its surface value, by symbolic differentiation and polynomial identity testing'
+TECHNIQUE = 'abstract interpretation of the sensitivity kernels and the radial-heating coefficient; comparison with the published kernel (Tobie et al. 2005 eq. 33) and with the global-rate coefficient by polynomial identity testing; exactness conditions of the finite-difference stencil; the energy theorem in differential form (d/dr of the energy flux along the repository\'s own ODE classes == Im mu * sensitivity_to_shear + Im K * sensitivity_to_bulk) and its surface value, by symbolic differentiation and polynomial identity testing; every data-dependent test inside the kernels is forked and the identities must hold on each arm (only a cut-off on |mu| is read as the liquid test)'
 LEVEL_TEXT = ('The energy theorem is decided in differential form (R05.5): for every solution of the equations the solver integrates (compressible solid, static and dynamic; compiled classes and the interpreted kernels) the radial derivative of the energy flux equals Im(mu) H_mu + Im(K) H_K with the repository\'s own kernels, and the surface value of the flux is -(2l+1)R/(4 pi G) Im k; the flux is constant through liquid layers with real bulk modulus and continuous across every interface kind under the conditions C02 decides the code imposes (R05.6); integrating gives the property\'s identity for layered bodies. The sign clause is decided as well (R05.7): along solutions both kernels are non-negative sums of squares, so Im k <= 0 whenever Im(mu) >= 0 and Im(K) >= 0 in every layer. Discretisation error of the quadrature and of the finite-difference dy1/dr is not decided. Also decided: the three formula-level facts without which the shell sum cannot '
               'reproduce the global rate for generic interiors: the kernel is TB05 eq. 33, the radial derivative stencil is exact for quadratics (second-order on non-uniform grids), '
               'and the heating coefficient closes with the (21/2) global rate.')
@@ -16,7 +16,7 @@ LEVEL_NOTE = ('Trusted: front-end, interpreter, symbolic differentiation; our tr
 EXPLANATION = ('R05.1 sensitivity_to_shear/bulk == TB05 eq. 33 with dy1/dr the stencil value, at first/interior/last grid points; R05.2 stencil exact for quadratics (interior) and linear functions (ends); '
                'R05.3 calc_radial_tidal_heating(r) * 4 pi r^2 == (21/2) G M^2 R^5 n e^2 / a^6 * 4 pi G/((2l+1) R) * H_mu * Im(mu); R05.4 no in-place update of arguments; '
                'R05.5 energy theorem in differential form and surface value of the flux; R05.6 the flux is constant through liquid layers with real bulk modulus and continuous across every interface kind '
-               '(so the theorem holds for layered bodies); R05.7 both kernels are non-negative sums of squares along solutions, hence Im k <= 0 for dissipative or elastic layers.')
+               '(so the theorem holds for layered bodies); R05.7 both kernels are non-negative sums of squares along solutions, hence Im k <= 0 for dissipative or elastic layers. R05.1, R05.2, R05.5 and R05.7 are decided on every arm of every data-dependent test in the kernels.')
 
 
 def _solid_domain(itp, st, v, fr):
